@@ -173,40 +173,307 @@ Section Laws.
   Lemma firstn_zlen {A} (l : list A) n : 0 <= n -> zlen (firstn (Z.to_nat n) l) = Z.min n (zlen l).
   Proof. intros H. unfold zlen. rewrite firstn_length. lia. Qed.
 
+  Lemma mode_val_inv m t : mode_val (inv_mode m t) = mode_val m.
+  Proof. destruct m; reflexivity. Qed.
+  Lemma mode_iv_inv m t : mode_iv urandom (inv_mode m t) = mode_iv urandom m.
+  Proof. destruct m; reflexivity. Qed.
+
+  Lemma iv_len_used bb s :
+    0 <= bb -> (iv_len s = bb \/ 8 <= iv_len s) -> iv_len (IVGiven (iv_bytes urandom s)) = iv_len s.
+  Proof. intros Hb H. destruct s as [v|n]; simpl in *; auto. apply urandom_len. lia. Qed.
+
+  Local Opaque assoc2 memZ pad unpad.
+
   (* Decrypt (Encrypt m) = m: same parameters, the IV encryption used (supplied, or generated and returned),
      the tag it returned *)
-  Theorem decrypt_inverts_encrypt_sym a key mode pad iv aad taglen msg out :
-    do_encrypt E urandom a key mode pad iv aad taglen msg = ROk out ->
-    do_decrypt Dp urandom a key mode pad
+  Theorem decrypt_inverts_encrypt_sym a key mode padm iv aad taglen msg out :
+    do_encrypt E urandom a key mode padm iv aad taglen msg = ROk out ->
+    do_decrypt Dp urandom a key mode padm
                (match eo_iv out with Some v => Some v | None => iv end) aad (eo_tag out) (eo_ct out) = ROk msg.
   Proof.
     unfold do_encrypt, do_decrypt. intros H.
-    destruct (sym_plan_of false a key mode pad iv aad taglen None) as [e|sp] eqn:Hp; try discriminate.
+    destruct (sym_plan_of false a key mode padm iv aad taglen None) as [e|sp] eqn:Hp; try discriminate.
     pose proof (sym_plan_shape _ _ _ _ _ _ _ _ _ _ Hp) as (Sa & Sk & Saad & Sg & Spad & Swf & (bb & ks & Eab & Sblk) & Sinv).
     specialize (Sinv eq_refl).
     pose proof (mode_val_mode _ _ _ _ _ _ _ _ _ _ Hp) as Smode.
+    pose proof (block_nonneg _ _ _ Eab) as Hbb. rewrite <- Sblk in Hbb.
     unfold run_sym_encrypt in H.
     destruct (lib_sym_ok false sp (zlen msg)) eqn:Hl; try discriminate.
     injection H as <-. cbn [eo_iv eo_tag eo_ct].
     set (data := match p_pad sp with PScheme s => pad s (p_block sp) msg | _ => msg end) in *.
     set (r := E (p_alg sp) (p_key sp) (mode_val (p_mode sp)) (mode_iv urandom (p_mode sp)) (p_aad sp) data) in *.
     set (tagv := match p_mode sp with MGCM _ _ mt => Some (firstn (Z.to_nat mt) (snd r)) | _ => None end).
+    (* facts from the library accepting the encrypt plan *)
+    unfold lib_sym_ok in Hl.
+    apply andb_prop in Hl. destruct Hl as [Hl H5].
+    apply andb_prop in Hl. destruct Hl as [Hl H4].
+    apply andb_prop in Hl. destruct Hl as [Hl H3].
+    apply andb_prop in Hl. destruct Hl as [H1 H2].
     assert (Htag : p_gcm sp = true -> is_some tagv = true).
     { intros G. unfold tagv. destruct (p_mode sp) eqn:Em; simpl in Swf; auto.
-      - (* MNone with gcm: the library rejects on encrypt *)
-        exfalso. unfold lib_sym_ok in Hl. rewrite Em, G in Hl. simpl in Hl. lia.
+      - exfalso. rewrite G in H3. simpl in H3. discriminate.
       - destruct Swf; congruence.
       - destruct Swf; congruence. }
+    change (match sym_plan_of true a key mode padm
+                    (match iv_returned urandom (p_mode sp) with Some v => Some v | None => iv end) aad None tagv
+            with Err e => RErr e | Ok sp0 => run_sym_decrypt Dp urandom sp0 (fst r) end = ROk msg).
     rewrite (decrypt_plan_is_inverse_plan _ _ _ _ _ _ _ _ tagv Hp Htag).
-    unfold run_sym_decrypt.
-    (* the library accepts the inverse plan *)
     assert (Hdata : zlen (fst r) = zlen data) by apply E_len.
-    assert (Hivlen : forall s, (p_mode sp = MIV (mode_val (p_mode sp)) s \/ exists t mt, p_mode sp = MGCM s t mt) ->
-                     lib_mode_ok (p_block sp) (p_mode sp) false = true ->
-                     iv_len (IVGiven (iv_bytes urandom s)) = iv_len s).
-    { intros s _ _. destruct s as [v|n]; simpl; auto.
-      (* fresh: n = block size of the table entry *) 
-      admit. }
-    admit.
-  Admitted.
+    assert (Hblkpos : forall s, p_pad sp = PScheme s -> 0 < p_block sp).
+    { intros s Es. rewrite Es in H4. lia. }
+    assert (Hmod : (oeqZ (Some (mode_val (p_mode sp))) BCM_CBC || oeqZ (Some (mode_val (p_mode sp))) BCM_ECB) = true ->
+                   zlen (fst r) mod p_block sp = 0).
+    { intros Hc. rewrite Hdata.
+      assert (Hne : mode_val (p_mode sp) <> -1).
+      { intros Hm. rewrite Hm in Hc. vm_compute in Hc. discriminate. }
+      specialize (Smode Hne).
+      assert (Hs : exists s, p_pad sp = PScheme s).
+      { rewrite Spad. apply pad_step_scheme; [rewrite Smode; exact Hc | rewrite <- Spad; exact Sinv]. }
+      destruct Hs as [s Es]. unfold data. rewrite Es. apply pad_len_mod. eauto. }
+    assert (Hunpad : match p_pad sp with
+                     | PInvalid => False
+                     | PNone => data = msg
+                     | PScheme s => unpad s (p_block sp) data = Some msg
+                     end).
+    { unfold data. destruct (p_pad sp) eqn:Es; auto. apply unpad_pad. eauto. }
+    unfold run_sym_decrypt.
+    assert (Hok : lib_sym_ok true (inv_plan sp tagv) (zlen (fst r)) = true).
+    { unfold lib_sym_ok, inv_plan. cbn [p_alg p_key p_mode p_pad p_block p_aad p_gcm].
+      rewrite mode_val_inv. rewrite H1. cbn [andb].
+      repeat (apply andb_true_intro; split).
+      - (* mode accepted *)
+        destruct (p_mode sp) eqn:Em; cbn [inv_mode lib_mode_ok] in *; auto.
+        + rewrite (iv_len_used (p_block sp)); auto. left. lia.
+        + unfold tagv. try rewrite Em. cbn [olen].
+          rewrite (iv_len_used (p_block sp)); auto; [|right; lia].
+          rewrite firstn_zlen by lia.
+          assert (zlen (snd r) = 16) by (unfold r; try rewrite Em; apply E_tag_len). lia.
+      - destruct (p_gcm sp && (mode_val (p_mode sp) =? -1)) eqn:Eg; [simpl in H3; discriminate|reflexivity].
+      - exact H4.
+      - cbn [andb]. destruct (oeqZ (Some (mode_val (p_mode sp))) BCM_CBC || oeqZ (Some (mode_val (p_mode sp))) BCM_ECB) eqn:Ec; auto.
+        rewrite Hmod by reflexivity. reflexivity. }
+    rewrite Hok.
+    unfold inv_plan. cbn [p_alg p_key p_mode p_pad p_block p_aad p_gcm].
+    rewrite mode_val_inv, mode_iv_inv.
+    assert (HD : Dp (p_alg sp) (p_key sp) (mode_val (p_mode sp)) (mode_iv urandom (p_mode sp)) (p_aad sp)
+                    (mode_tag (inv_mode (p_mode sp) tagv)) (fst r) = Some data).
+    { unfold r, tagv. destruct (p_mode sp) eqn:Em; cbn [inv_mode mode_tag mode_val mode_iv] in *.
+      - apply law_plain. vm_compute. discriminate.
+      - apply law_plain. simpl in Swf. tauto.
+      - apply law_plain. simpl in Swf. tauto.
+      - apply law_gcm. cbn [lib_mode_ok] in H2. lia. }
+    rewrite HD.
+    destruct (p_pad sp); try contradiction.
+    - now rewrite Hunpad.
+    - now rewrite Hunpad.
+  Qed.
 End Laws.
+
+(* ------------------------------------------------------------------ GCM: tag and AAD plumbing *)
+Local Opaque assoc.
+
+Lemma gcm_plan dec a key padm iv aad taglen tag sp :
+  a <> CA_RC4 ->
+  sym_plan_of dec a key (Some BCM_GCM) padm iv aad taglen tag = Ok sp ->
+  p_aad sp = aad /\ p_gcm sp = true /\ p_pad sp = PNone /\ p_key sp = key /\
+  (dec = false -> exists s t, taglen = Some t /\ p_mode sp = MGCM s None t /\
+                              (s = match iv with Some v => IVGiven v | None => IVFresh (p_block sp) end)) /\
+  (dec = true -> exists v t, iv = Some v /\ tag = Some t /\ p_mode sp = MGCM (IVGiven v) (Some t) (zlen t)).
+Proof.
+  intros Hrc H.
+  pose proof (sym_plan_shape _ _ _ _ _ _ _ _ _ _ H) as (Sa & Sk & Saad & Sg & Spad & _ & (bb & ks & Eab & Sblk) & _).
+  unfold sym_plan_of in H. rewrite Eab in H.
+  destruct (negb (memZ (8 * zlen key) ks)); try discriminate.
+  change (oeqZ (Some BCM_GCM) BCM_GCM) with true in *. cbn [negb andb] in H.
+  assert (Erc : (a =? CA_RC4) = false) by lia. rewrite Erc in H.
+  assert (Em : assoc BCM_GCM cipher_modes = Some true) by (vm_compute; reflexivity). rewrite Em in H.
+  split; [exact Saad|]. split; [rewrite Sg; reflexivity|]. split; [rewrite Spad; reflexivity|].
+  split; [exact Sk|]. split.
+  - intros ->. destruct taglen as [t|]; cbn [is_some negb] in H; try discriminate.
+    destruct iv as [v|]; cbn in H; apply Ok_inj in H; subst sp; cbn; eauto.
+  - intros ->. destruct tag as [t|]; cbn [is_some negb] in H; try discriminate.
+    destruct iv as [v|]; cbn in H; try discriminate. apply Ok_inj in H; subst sp; cbn; eauto.
+Qed.
+
+Lemma aad_only_in_gcm dec a key mode padm iv aad taglen tag sp :
+  sym_plan_of dec a key mode padm iv aad taglen tag = Ok sp -> is_some aad = true -> mode = Some BCM_GCM.
+Proof.
+  unfold sym_plan_of. intros H Ha.
+  destruct (assoc a sym_algs) as [[bb ks]|]; try discriminate.
+  destruct (negb (memZ (8 * zlen key) ks)); try discriminate.
+  rewrite Ha in H. destruct mode as [m|]; cbn in H; try discriminate.
+  destruct (m =? BCM_GCM) eqn:E; cbn in H; try discriminate.
+  apply Z.eqb_eq in E. now subst.
+Qed.
+
+Lemma gcm_needs_tag_length a key padm iv aad :
+  sym_plan_of false a key (Some BCM_GCM) padm iv aad None None = Err InvalidField \/
+  sym_plan_of false a key (Some BCM_GCM) padm iv aad None None = Err CryptographicFailure.
+Proof.
+  unfold sym_plan_of.
+  destruct (assoc a sym_algs) as [[bb ks]|]; auto.
+  destruct (negb (memZ (8 * zlen key) ks)); auto.
+Qed.
+
+(* decryption releases a plaintext only after the primitive accepted exactly the supplied (iv, aad, tag, ciphertext) *)
+Lemma gcm_decrypt_authenticates Dp urandom a key padm iv aad tag ct m :
+  a <> CA_RC4 ->
+  do_decrypt Dp urandom a key (Some BCM_GCM) padm iv aad tag ct = ROk m ->
+  Dp a key BCM_GCM iv aad tag ct = Some m.
+Proof.
+  unfold do_decrypt. intros Hrc H.
+  destruct (sym_plan_of true a key (Some BCM_GCM) padm iv aad None tag) as [e|sp] eqn:Hp; try discriminate.
+  pose proof (sym_plan_shape _ _ _ _ _ _ _ _ _ _ Hp) as (Sa & _).
+  destruct (gcm_plan _ _ _ _ _ _ _ _ _ Hrc Hp) as (Haad & _ & Hpad & Hkey & _ & Hd).
+  destruct (Hd eq_refl) as (v & t & -> & -> & Hm).
+  unfold run_sym_decrypt in H. destruct (lib_sym_ok true sp (zlen ct)); try discriminate.
+  rewrite Hm, Hpad, Haad, Hkey, Sa in H. cbn in H.
+  destruct (Dp a key BCM_GCM (Some v) aad (Some t) ct); try discriminate.
+  injection H as ->. reflexivity.
+Qed.
+
+(* ------------------------------------------------------------------ sign / verify select the same hash and padding *)
+Definition dsa_inconsistent (p : sig_params) : Prop :=
+  exists d dh da, s_dsa p = Some d /\ assoc d dsa_algs = Some (dh, da) /\
+    ((exists hv h, s_hash p = Some hv /\ assoc hv enc_hashes = Some h /\ h <> dh) \/
+     (exists a, s_alg p = Some a /\ a <> da)).
+
+Lemma verify_matches_sign p sp :
+  sign_plan p = Ok sp -> lib_sign_ok sp = true ->
+  verify_plan p = Ok sp \/ (verify_plan p = Err InvalidField /\ dsa_inconsistent p).
+Proof.
+  unfold sign_plan, verify_plan, lib_sign_ok. destruct p as [dsa alg hash padm loads]. cbn.
+  intros H Hh.
+  destruct dsa as [d|].
+  - destruct (assoc d dsa_algs) as [[dh da]|] eqn:Ed; cbn in H.
+    + destruct (da =? CA_RSA) eqn:Ea; cbn in H; try discriminate.
+      destruct loads; cbn in H; try discriminate.
+      destruct padm as [pv|]; try discriminate.
+      destruct (match hash with Some hv => assoc hv enc_hashes | None => None end) as [h0|] eqn:Eh0.
+      * destruct (negb (h0 =? dh)) eqn:Eneq.
+        -- right. split; auto. exists d, dh, da. cbn. repeat split; auto. left.
+           destruct hash as [hv|]; try discriminate. exists hv, h0. repeat split; auto. lia.
+        -- destruct alg as [a0|].
+           ++ destruct (negb (a0 =? da)) eqn:Ena.
+              ** right. split; auto. exists d, dh, da. cbn. repeat split; auto. right. exists a0. split; auto. lia.
+              ** left. cbn. rewrite Ea. cbn.
+                 destruct (pv =? PM_PSS) eqn:E1; [apply Ok_inj in H; subst sp; reflexivity|].
+                 destruct (pv =? PM_PKCS1v15) eqn:E2; try discriminate. apply Ok_inj in H; subst sp; reflexivity.
+           ++ left. cbn. rewrite Ea. cbn.
+              destruct (pv =? PM_PSS) eqn:E1; [apply Ok_inj in H; subst sp; reflexivity|].
+              destruct (pv =? PM_PKCS1v15) eqn:E2; try discriminate. apply Ok_inj in H; subst sp; reflexivity.
+      * destruct alg as [a0|].
+        -- destruct (negb (a0 =? da)) eqn:Ena.
+           ++ right. split; auto. exists d, dh, da. cbn. repeat split; auto. right. exists a0. split; auto. lia.
+           ++ left. cbn. rewrite Ea. cbn.
+              destruct (pv =? PM_PSS) eqn:E1; [apply Ok_inj in H; subst sp; reflexivity|].
+              destruct (pv =? PM_PKCS1v15) eqn:E2; try discriminate. apply Ok_inj in H; subst sp; reflexivity.
+        -- left. cbn. rewrite Ea. cbn.
+           destruct (pv =? PM_PSS) eqn:E1; [apply Ok_inj in H; subst sp; reflexivity|].
+           destruct (pv =? PM_PKCS1v15) eqn:E2; try discriminate. apply Ok_inj in H; subst sp; reflexivity.
+    + cbn in H. discriminate.
+  - destruct alg as [a0|]; cbn in H; try discriminate.
+    destruct hash as [hv|]; cbn in H; try discriminate.
+    destruct (a0 =? CA_RSA) eqn:Ea; cbn in H; try discriminate.
+    destruct loads; cbn in H; try discriminate.
+    destruct padm as [pv|]; try discriminate.
+    left. cbn. rewrite Ea. cbn.
+    destruct (pv =? PM_PSS) eqn:E1.
+    + apply Ok_inj in H; subst sp. cbn in Hh. destruct (assoc hv enc_hashes); try discriminate. reflexivity.
+    + destruct (pv =? PM_PKCS1v15) eqn:E2; try discriminate.
+      apply Ok_inj in H; subst sp. cbn in Hh. destruct (assoc hv enc_hashes); try discriminate. reflexivity.
+Qed.
+
+(* a digital signature algorithm and the equivalent separate (RSA, hash) parameters select the same plan *)
+Lemma sign_dsa_eq_separate d h hv padm loads a0 h0 :
+  assoc d dsa_algs = Some (h, CA_RSA) -> assoc hv enc_hashes = Some h ->
+  sign_plan (mkSig (Some d) a0 h0 padm loads) = sign_plan (mkSig None (Some CA_RSA) (Some hv) padm loads).
+Proof. intros Hd Hh. unfold sign_plan. cbn. rewrite Hd, Hh. reflexivity. Qed.
+
+Lemma verify_dsa_eq_separate d h hv padm loads :
+  assoc d dsa_algs = Some (h, CA_RSA) -> assoc hv enc_hashes = Some h ->
+  verify_plan (mkSig (Some d) None None padm loads) = verify_plan (mkSig None (Some CA_RSA) (Some hv) padm loads).
+Proof. intros Hd Hh. unfold verify_plan. cbn. rewrite Hd, Hh. reflexivity. Qed.
+
+(* every entry of the generated digital-signature table names RSA and a hash of the hash table *)
+Lemma dsa_table_rsa : forallb (fun e : Z * (Z * Z) => (snd (snd e) =? CA_RSA) &&
+                                 existsb (fun hh : Z * Z => snd hh =? fst (snd e)) enc_hashes) dsa_algs = true.
+Proof. vm_compute. reflexivity. Qed.
+
+(* ------------------------------------------------------------------ derived length *)
+Lemma derive_finish_exact len out d : 0 <= len -> derive_finish len out = Ok d -> zlen d = len.
+Proof.
+  unfold derive_finish. intros Hl H. destruct (zlen out <? len) eqn:E; try discriminate.
+  apply Ok_inj in H. subst d. unfold zlen in *. rewrite firstn_length. lia.
+Qed.
+
+Lemma derive_finish_prefix len out d : derive_finish len out = Ok d -> exists rest, out = d ++ rest.
+Proof.
+  unfold derive_finish. intros H. destruct (zlen out <? len); try discriminate.
+  apply Ok_inj in H. subst d. exists (skipn (Z.to_nat len) out). symmetry. apply firstn_skipn.
+Qed.
+
+Lemma derive_finish_short len out : zlen out < len -> derive_finish len out = Err CryptographicFailure.
+Proof. unfold derive_finish. intros H. replace (zlen out <? len) with true by lia. reflexivity. Qed.
+
+(* the KDF plans carry the requested length to the primitive unchanged *)
+Lemma derive_plan_len p dp :
+  derive_plan p = Ok dp ->
+  match dp with
+  | DHkdf _ len _ _ _ | DPbkdf2 _ len _ _ _ | DKbkdf _ len _ _ => len = d_len p
+  | _ => True
+  end.
+Proof.
+  unfold derive_plan. intros H.
+  destruct (oeqZ (d_method p) DM_ENCRYPT).
+  - destruct (encrypt_plan _); try discriminate. apply Ok_inj in H. now subst.
+  - destruct (d_hash p) as [hv|]; try discriminate.
+    destruct (assoc hv enc_hashes) as [h|]; try discriminate.
+    destruct (oeqZ (d_method p) DM_HMAC); [apply Ok_inj in H; now subst|].
+    destruct (oeqZ (d_method p) DM_HASH).
+    { destruct (d_data p), (d_key p); try discriminate; apply Ok_inj in H; now subst. }
+    destruct (oeqZ (d_method p) DM_PBKDF2).
+    { destruct (d_salt p); try discriminate. destruct (d_iter p); try discriminate. apply Ok_inj in H; now subst. }
+    destruct (oeqZ (d_method p) DM_NIST800_108_C); try discriminate. apply Ok_inj in H; now subst.
+Qed.
+
+(* the derivation table as the code has it *)
+Lemma derive_table p hv h :
+  d_hash p = Some hv -> assoc hv enc_hashes = Some h ->
+  (d_method p = Some DM_HMAC -> derive_plan p = Ok (DHkdf h (d_len p) (d_salt p) (d_data p) (d_key p))) /\
+  (d_method p = Some DM_NIST800_108_C -> derive_plan p = Ok (DKbkdf h (d_len p) (d_data p) (d_key p))) /\
+  (d_method p = Some DM_HASH -> forall x, d_data p = Some x -> d_key p = None -> derive_plan p = Ok (DHash h x)) /\
+  (d_method p = Some DM_HASH -> forall x, d_data p = None -> d_key p = Some x -> derive_plan p = Ok (DHash h x)) /\
+  (d_method p = Some DM_HASH -> forall x y, d_data p = Some x -> d_key p = Some y -> derive_plan p = Err InvalidField) /\
+  (d_method p = Some DM_PBKDF2 -> forall s it, d_salt p = Some s -> d_iter p = Some it ->
+      derive_plan p = Ok (DPbkdf2 h (d_len p) s it (d_key p))).
+Proof.
+  intros Hh Ha. unfold derive_plan. rewrite Hh, Ha.
+  repeat split; intros Hm; rewrite Hm; cbn; intros; repeat match goal with H : _ = _ |- _ => rewrite H end; reflexivity.
+Qed.
+
+Lemma derive_encrypt_is_encrypt p :
+  d_method p = Some DM_ENCRYPT ->
+  derive_plan p =
+  match encrypt_plan (mkEnc (d_alg p) (match d_key p with Some k => k | None => [] end) (d_key_loads p)
+                            (d_mode p) (d_pad p) (d_iv p) None None None None) with
+  | Err e => Err e | Ok c => Ok (DEncrypt c) end.
+Proof. intros H. unfold derive_plan. rewrite H. reflexivity. Qed.
+
+(* ------------------------------------------------------------------ acceptance characterised; no third outcome *)
+Definition sym_accepts_enc (a : Z) (key : bytes) (mode padm : option Z) (aad : option bytes) (taglen : option Z) : bool :=
+  match assoc a sym_algs with
+  | None => false
+  | Some (_, ks) =>
+      memZ (8 * zlen key) ks
+      && (negb (is_some aad) || oeqZ mode BCM_GCM)
+      && (negb (oeqZ mode BCM_GCM) || is_some taglen)
+      && ((a =? CA_RC4) || match mode with Some m => is_some (assoc m cipher_modes) | None => false end)
+      && (negb (oeqZ mode BCM_CBC || oeqZ mode BCM_ECB)
+          || match padm with Some p => is_some (assoc p sym_paddings) | None => false end)
+  end.
+
+(* every parameter tuple yields a KMIP error class or a plan: the model has no third outcome.
+   (Where the Python can leave with a non-KMIP exception the plan exists and lib_*_ok is false: C13's concern.) *)
+Lemma res_total {A} (r : res A) : (exists e, r = Err e) \/ (exists a, r = Ok a).
+Proof. destruct r; eauto. Qed.
